@@ -280,6 +280,7 @@ func (p *Program) handleSignals() chan struct{} {
 		signal.Notify(sig, syscall.SIGINT, syscall.SIGTERM)
 		defer func() {
 			signal.Stop(sig)
+			verifPause("sig: exit")
 			close(ch)
 		}()
 
@@ -329,6 +330,7 @@ func (p *Program) handleCommands(cmds chan Cmd) chan struct{} {
 
 	go func() {
 		defer close(ch)
+		defer verifPause("cmds: exit")
 
 		for {
 			select {
@@ -370,6 +372,7 @@ func (p *Program) disableMouse() {
 // eventLoop is the central message loop. It receives and handles the default
 // Bubble Tea messages, update the model and triggers redraws.
 func (p *Program) eventLoop(model Model, cmds chan Cmd) (Model, error) {
+	defer verifPause("el: exit")
 	for {
 		select {
 		case <-p.ctx.Done():
@@ -579,6 +582,7 @@ func (p *Program) Run() (returnModel Model, returnErr error) {
 	}
 
 	// Handle signals.
+	verifPause("su: sigHandler")
 	if !p.startupOptions.has(withoutSignalHandler) {
 		p.handlers.add(p.handleSignals())
 	}
@@ -598,9 +602,12 @@ func (p *Program) Run() (returnModel Model, returnErr error) {
 		p.renderer = newRenderer(p.output, p.startupOptions.has(withANSICompressor), p.fps)
 	}
 
+	verifPause("su: newRenderer")
+
 	// Check if output is a TTY before entering raw mode, hiding the cursor and
 	// so on.
 	if err := p.initTerminal(); err != nil {
+		verifPause("su: termFails")
 		return p.initialModel, err
 	}
 
@@ -631,6 +638,8 @@ func (p *Program) Run() (returnModel Model, returnErr error) {
 	}
 
 	// Start the renderer.
+	verifPause("su: modesWritten")
+	verifPause("su: startRenderer")
 	p.renderer.start()
 
 	// Initialize the program.
@@ -638,9 +647,11 @@ func (p *Program) Run() (returnModel Model, returnErr error) {
 	if initCmd := model.Init(); initCmd != nil {
 		ch := make(chan struct{})
 		p.handlers.add(ch)
+		verifPause("su: spawnInit")
 
 		go func() {
 			defer close(ch)
+			defer verifPause("init: exit")
 
 			select {
 			case cmds <- initCmd:
@@ -648,21 +659,25 @@ func (p *Program) Run() (returnModel Model, returnErr error) {
 			}
 		}()
 	}
+	verifPause("su: initDone")
 
 	// Render the initial view.
 	p.renderer.write(model.View())
+	verifPause("su: firstViewDone")
 
 	// Subscribe to user input.
 	if p.input != nil {
 		if err := p.initCancelReader(false); err != nil {
 			// The terminal has been initialized and the renderer started:
 			// undo that before giving up.
+			verifPause("su: readerFails")
 			p.shutdown(true)
 			return model, err
 		}
 	}
 
 	// Handle resize events.
+	verifPause("su: spawnHandlers")
 	p.handlers.add(p.handleResize())
 
 	// Process commands.
@@ -670,6 +685,7 @@ func (p *Program) Run() (returnModel Model, returnErr error) {
 
 	// Run event loop, handle updates and draw.
 	model, err := p.eventLoop(model, cmds)
+	verifPause("run: tail")
 	killed := p.ctx.Err() != nil || err != nil
 	if killed && err == nil {
 		err = fmt.Errorf("%w: %s", ErrProgramKilled, p.ctx.Err())
@@ -682,6 +698,7 @@ func (p *Program) Run() (returnModel Model, returnErr error) {
 	// Restore terminal state.
 	p.shutdown(killed)
 
+	verifPause("run: return")
 	return model, err
 }
 
@@ -744,12 +761,15 @@ func (p *Program) Wait() {
 // shutdown performs operations to free up resources and restore the terminal
 // to its original state.
 func (p *Program) shutdown(kill bool) {
+	verifPause("sh: cancel")
 	p.cancel()
 
 	// Wait for all handlers to finish.
 	p.handlers.shutdown()
+	verifPause("sh: handlers")
 
 	// Check if the cancel reader has been setup before waiting and closing.
+	verifPause("sh: reader")
 	if p.cancelReader != nil {
 		// Wait for input loop to finish.
 		if p.cancelReader.Cancel() {
@@ -767,8 +787,10 @@ func (p *Program) shutdown(kill bool) {
 			p.renderer.stop()
 		}
 	}
+	verifPause("sh: renderer")
 
 	_ = p.restoreTerminalState()
+	verifPause("sh: restore")
 }
 
 // recoverFromPanic recovers from a panic, prints the stack trace, and restores
